@@ -10,4 +10,5 @@ INVARIANT Bookkeeping
 INVARIANT HardenedNeedsPrivate
 INVARIANT PubPrivCommute
 INVARIANT RoundTrip
+INVARIANT Census
 CHECK_DEADLOCK FALSE
